@@ -32,7 +32,9 @@ Oracle    : every run's observation (captured stdout, returned exc_info type+mes
             source that compiles, a corrupted entry (truncated, foreign, garbage, non-code) has been
             replaced by a well-formed one whose code reproduces the reference observation.  Different
             code strings / different real paths never map to the same cache file, and no cache file is an
-            ancestor directory of another.
+            ancestor directory of another.  Cache files are located by watching the data dir (new file
+            after a cached run; xonsh's own name for a code string is only a first guess), so a repair
+            that renames entries stays quiet.
 Known     : C19-F1 valid header + marshalled non-code object is executed / TypeError / None;
             C19-F2 an entry that cannot be opened (EACCES) is fatal; C19-F3 code entries are keyed by the
             text only, so an entry compiled for one mode is executed for another mode;
@@ -537,7 +539,9 @@ def run_child(args, data_dir, sw_env, cwd, stdin_text=None):
                            input=(stdin_text.encode() if stdin_text is not None else None),
                            stdin=(subprocess.DEVNULL if stdin_text is None else None))
     except subprocess.TimeoutExpired:
-        return {"stdout": "", "rc": "timeout", "_stderr": ""}
+        raise common.HarnessError("a child xonsh process did not finish within 120 s: %r" % (args,))
+    if r.returncode == -9:
+        raise common.HarnessError("a child xonsh process was killed with SIGKILL from outside (out of memory?)")
     return {"stdout": r.stdout.decode("utf-8", "replace"), "rc": r.returncode,
             "_stderr": r.stderr.decode("utf-8", "replace")[-600:]}
 
